@@ -353,7 +353,8 @@ PROPS = {
             "C14_wire_desc",
             "C14_tokenizer",
             "C14_parsers",
-            "C14_trans"
+            "C14_trans",
+            "C14_trans2"
         ],
         "domains": [
             {
@@ -420,7 +421,8 @@ PROPS = {
             "MySQL (Model/MysqlWireExt.v, Properties/C12_mysql.v, domain c12my): packet framing, classification, binary rows, column definition packets and the COM_STMT_EXECUTE parameter block are CHECKED models replayed through the add-only hook decryptor/mysql/export_verif_x12my.go; MaxPayloadLen is a parameter of the model (theorems for every value; the multi-packet branch of ReadPacket/Dump is tied to the real code only by the 16 MiB implementation oracle of the thorough tier, such literals cannot be replayed in Coq); the subscribers of a row (onColumnDecryption) and GetType/GetData/Encode of a bound value are arbitrary functions in the theorems and scripted in the replay (their own behaviour: C19 / Model/TypedMysql.v); the decimal text form of numeric parameters (strconv) is not modelled; Handler.handleStatementExecute and the capability accessors of the first packets are run on truncated packets by the implementation oracle only (hooks VerifX12HandleStatementExecute / VerifX12Capabilities), not modelled; Gen/WireMysqlConsts.v: type tables probed from extractData for all 256 type bytes and read from base.NumericTypesStorageBytes",
             "SQL tokenizer (Model/SqlTokenizer.v, Properties/C14_tokenizer.v, domain c14tok): string tokenizers only (InStream == nil, the constructors every acra entry point uses; the io.Reader refill branch of next() is not modelled); Go's utf8.DecodeRune(Last)InString and strings.IndexFunc/TrimFunc (used by ExtractMysqlComment) are re-stated in the model and tied by replay only, unicode.IsDigit/IsSpace are probed on every code point into Gen/SqlKeywords.v; bytes.ToLower is modelled as ASCII lower-casing (identifier bytes are ASCII); fmt's %d as decimal digits; the token stream of short boundary inputs is compared by record count + folded FNV-1a digest of the records (TokBatch), scripted ops byte by byte; stack use of the real tokenizer is an implementation oracle (runtime.MemStats.StackInuse around 150 000 version comments)",
             "Properties/C14_parsers.v (37 theorems, domain c14par, Model/ParsersExt.v + Model/HashExt.v): searchable-hash extractor for any hash registry (ExtractHash, ExtractHashAndData, Processor.OnColumn, NewHashProcessor / DecryptRotatedSearchable* slicing; boundary table of every length 0..70 x registered tags and neighbours x exact/spare capacity in EVERY tier), audit-log plaintext/CEF line parsers and the log file scanner, key file name parsers of keystore v1 (DescribeKeyFile, getContextFromFilename), ring path parser of keystore v2 (DescribeKeyRing), SNIOrHostname, TrimStringToN, binaryType.UnmarshalJSON, HexIdentifierConverter.Convert are CHECKED models replayed against the real functions; trusted there: strings.TrimSpace / strings.Contains keep the functional form of Model/AuditLog.v (C20), path.Clean / filepath.Dir are Model/Path.v (validated by domain c07), time.Parse (isHistoricalFilename) is an input bit, base64.StdEncoding.Decode and SHA-512 are abstract functions (decoder contract: at most DecodedLen(len src) bytes written), bufio.Scanner is modelled by its documented line/limit behaviour (exact for lines up to limit-2 and from limit on); inline string literals of describeV1/describeV2 come from go/ast (Gen/ParsersConsts.v); the JSON line parser stays under the implementation oracle (encoding/json tokenizer outside the model, see C20_json)",
-            "xtr: Gen/Trans.v is produced on every run by `acra-vh transgo` (harness/xtr: go/parser + go/types over the current /repo source) for 17 functions; Properties/C14_trans.v proves each translated definition equal to the hand-written checked model for all inputs. TRUSTED: the translator (harness/xtr, about 2000 lines of Go) and its reading of Go semantics: fixed-width wrap-around of + - * << on int/uintN, truncating conversions, bounds checks of a[i] / a[i:j] with cap = len (Lib/GoSlice.v), a nil slice behaves as the empty slice, values returned beside a non-nil error are dropped, package-level variables that are never written inside their own package are constants (aliasing writes from other packages are not detected), logrus calls with identifier/constant/len arguments have no effect and do not panic, constant expressions are evaluated by go/types; anything outside the subset makes the generator fail (broken tie). The translator itself is validated by domain c14trans: the real Go functions are replayed on the translated definitions (op tag T) and on the hand models (op tag H)"
+            "xtr: Gen/Trans.v is produced on every run by `acra-vh transgo` (harness/xtr: go/parser + go/types over the current /repo source) for 17 functions; Properties/C14_trans.v proves each translated definition equal to the hand-written checked model for all inputs. TRUSTED: the translator (harness/xtr, about 2000 lines of Go) and its reading of Go semantics: fixed-width wrap-around of + - * << on int/uintN, truncating conversions, bounds checks of a[i] / a[i:j] with cap = len (Lib/GoSlice.v), a nil slice behaves as the empty slice, values returned beside a non-nil error are dropped, package-level variables that are never written inside their own package are constants (aliasing writes from other packages are not detected), logrus calls with identifier/constant/len arguments have no effect and do not panic, constant expressions are evaluated by go/types; anything outside the subset makes the generator fail (broken tie). The translator itself is validated by domain c14trans: the real Go functions are replayed on the translated definitions (op tag T) and on the hand models (op tag H)",
+            "xtr2: extended subset of the translator (harness/xtr/ext.go), 20 acra functions + 3 self-test functions (harness/xtr/selftest, NOT acra code); Properties/C14_trans2.v. ADDED to the trusted reading of Go: append(v, ..) on an OWNED slice (a literal, or a local variable assigned only from make / nil / literals / append of itself) returns v ++ .. and nothing else observes the write (any other first argument is rejected); make([]byte, n[, c]) = n zero bytes, panics exactly when gmake does (n or c negative or above 2^47, or n > c); copy(v, src) on an owned v that is used only in len / copy / return is v := gcopy v src; `p == nil` on a never-assigned []byte PARAMETER is an extra bool parameter v_p__nil (invariant nil => len 0; callers inside the translated set are rejected), every other nil comparison on slices is rejected; `for _, x := range s` iterates over the value s had when the loop started (structural recursion on the list); `for i := a; i < b; i++` with i and b not assigned in the body runs max(0, b - a) times with i = a, a+1, .. (i+1 cannot overflow because i < b); every other loop is recursion on fuel = 1 + total length of the []byte parameters and returns Err 99 (E_OUT_OF_FUEL) when it runs out (theorem: unreachable); break / continue without label; the loop state is the tuple of outer variables assigned in the body"
         ],
         "assumptions": [
             "go_len s (len s <= 2^47, True of every Go byte slice) where the code converts len to uint64 or adds to it in int64",
@@ -525,7 +527,8 @@ PROPS = {
     "C06": {
         "properties": [
             "C06",
-            "C06_data"
+            "C06_data",
+            "C06_data_v1"
         ],
         "domains": [
             {
@@ -546,7 +549,7 @@ PROPS = {
         "trusted": [
             "harness/vh/memfs.go: in-memory implementation of acra's filesystem.Storage (os semantics of ReadDir order, hard links, rename, O_EXCL copy) under the real keystore v1; keystore v2 runs on acra's own backend.NewInMemory",
             "key versions are identified by reading the new key through a second, uncached keystore object right after each generation",
-            "modelled, not verified: master-key encryption of stored keys (C07), export/import, key ring signatures and the directory/redis back ends; C06_data: listings (ListKeys / ListRotatedKeys rows: part, index, state) and current public keys are observations of the model, creation times / purpose / client-id strings and the global listing order are checked by the implementation oracle only; the data theorems compose keystore v2 with the C01 envelope model, keystore v1 data histories are replayed and checked by the oracle (no composed v1 theorem)",
+            "modelled, not verified: master-key encryption of stored keys (C07), export/import, key ring signatures and the directory/redis back ends; C06_data: listings (ListKeys / ListRotatedKeys rows: part, index, state) and current public keys are observations of the model, creation times / purpose / client-id strings and the global listing order are checked by the implementation oracle only; the data theorems compose keystore v2 (C06_data) and the UNCACHED keystore v1 (C06_data_v1, strengthened invariant: .pub label = private label) with the C01 envelope model; keystore v1 with a key cache is not composed with data (cache theorems of C06 only); v1 listing rows are theorems up to the creation times (proved strictly ascending, values replayed)",
             "Gen/KeyStates.v regenerated from /repo (asn1.NoKey, firstSeqnum via hook, api.KeyStateTransitionValid table, cache size constants)"
         ],
         "assumptions": [
@@ -559,7 +562,8 @@ PROPS = {
         "properties": [
             "C09",
             "C09_conditions",
-            "C09_resolution"
+            "C09_resolution",
+            "C09_composition"
         ],
         "domains": [
             {
@@ -584,10 +588,12 @@ PROPS = {
             "hmac.Processor is modelled with an arbitrary envelope matcher and arbitrary subscribers in between; the replay instantiates them with the models of EnvelopeMatcher / OldContainerDetectorWrapper (Model/EnvelopeOld.v, owned by C01_old); decoder/encoder/token/masking subscribers of the proxies are not in the replayed chain",
             "HashQuery.OnBind's early return when ParseSearchQueryPlaceholdersSettings reports more placeholders than indexes (only reachable with consistently tokenized columns) is not modelled",
             "SQL literal / bound-parameter decoding (PgQueryDBDataCoder.Decode, pgBoundValue.GetData) is exercised by the harness, not modelled",
-            "HMAC-SHA-256 (Lib/Sha256.v) is an executable definition validated against Go's crypto/hmac on every replayed case; no injectivity is assumed, exactness theorems are reductions to an explicit collision"
+            "HMAC-SHA-256 (Lib/Sha256.v) is an executable definition validated against Go's crypto/hmac on every replayed case; no injectivity is assumed, exactness theorems are reductions to an explicit collision",
+            "composition (Properties/C09_composition.v, Model/SearchCompose.v): the database's ROW SELECTION is MODELLED, not replayed: joined rows = one row of every base table of the FROM list (INNER JOIN, every ON condition evaluated on the complete joined row), name look-up by the rule of Model/SearchResolveSpec.v, = / <=> / <> on byte strings without NULLs, substr(e,1,33) literal, casts / convert(..,binary) identity on bytes, LIKE / other operators / other row-independent expressions universally quantified; the in-harness evaluator of oracle (C) of domain c09res (proper SQL scoping, real parse trees) is its independent twin on generated statements; bound values after OnBind are a premise of the statement-level theorem (index of the plaintext for the placeholders on_bind lists, unchanged otherwise), the link to the model's on_bind is C09_composition_on_bind_lists_selected_placeholders, the values themselves are C09_bound_values_after_bind's (single-table model)"
         ],
         "assumptions": [
-            "none beyond the hypotheses written in each theorem (no Correct C law is needed)"
+            "none beyond the hypotheses written in each theorem (no Correct C law is needed)",
+            "C09_composition_*: statement premises = those of C09_resolution_rewritten_iff_spec (scope_ok, pg_listed; ref_ok / operand_ok for every selected comparison) + flat_s (no sub-select / derived table: the known findings subselect-outer-scope, derived-*) + cmp_ok (selected: value is a literal, PostgreSQL cast literal, bare placeholder, or another searchable column under = / <> / MySQL <=>; unselected: references no protected column); stored image db_rel (searchable cell = index(plaintext) ++ anything, cell without setting = plaintext, every row has its table's searchable columns)"
         ]
     },
     "C10": {
@@ -821,7 +827,8 @@ PROPS = {
             "C12",
             "C12_mysql",
             "C12_desc",
-            "C14_trans"
+            "C14_trans",
+            "C14_trans2"
         ],
         "domains": [
             {
